@@ -29,6 +29,9 @@ func (interp *Interpreter) buildOk(ctx *build.Context, name, src string) (bool, 
 		return true, nil
 	}
 	for _, g := range f.Comments {
+		if strings.HasPrefix(g.List[0].Text, "/*") {
+			continue // Build constraints are only recognized in line comments.
+		}
 		// in file, evaluate the AND of multiple line build constraints
 		for _, line := range strings.Split(strings.TrimSpace(g.Text()), "\n") {
 			if !buildLineOk(ctx, line) {
